@@ -112,7 +112,7 @@ func tthParamJSON(flags, seq, proto int, ints map[uint16]string, strs map[string
 
 func tthDecode(w *TraceWriter, in []byte, seeds []int, shapes int) {
 	ctx := context.Background()
-	emit := func(api, frag string, p ttheader.DecodeParam, err error, readlen int, panicked bool) {
+	emit := func(api, frag string, p ttheader.DecodeParam, err error, readlen int, panicked bool, extra ...interface{}) {
 		total := []int{0, 0, 0, 0}
 		tl := 0
 		if len(in) >= 4 {
@@ -127,9 +127,10 @@ func tthDecode(w *TraceWriter, in []byte, seeds []int, shapes int) {
 			}
 			isstr = ttheader.IsStreaming(in)
 		}()
-		w.Ev("tth_dec", "api", api, "frag", frag, "in", projectBytes(in, seeds), "ok", err == nil && !panicked, "panic", panicked,
+		kv := []interface{}{"api", api, "frag", frag, "in", projectBytes(in, seeds), "ok", err == nil && !panicked, "panic", panicked,
 			"param", tthParamJSON(int(p.Flags), int(p.SeqID), int(p.ProtocolID), p.IntInfo, p.StrInfo, seeds),
-			"hlen", p.HeaderLen, "plendelta", p.PayloadLen-tl, "total", Raw(intsJSON(total)), "readlen", readlen, "isth", isth, "isstreaming", isstr)
+			"hlen", p.HeaderLen, "plendelta", p.PayloadLen - tl, "total", Raw(intsJSON(total)), "readlen", readlen, "isth", isth, "isstreaming", isstr}
+		w.Ev("tth_dec", append(kv, extra...)...)
 	}
 	func() {
 		var p ttheader.DecodeParam
@@ -186,6 +187,25 @@ func tthDecode(w *TraceWriter, in []byte, seeds []int, shapes int) {
 		}()
 		emit("stream", sh.name, p, err, rd.ReadLen(), panicked)
 		rd.Release(nil)
+		// a live connection: the header has arrived, the payload has not; a decoder asking for more than the header would
+		// block until it does (here the request is refused and counted)
+		if si == 0 && err == nil && !panicked && p.HeaderLen > 0 && p.HeaderLen <= len(in) {
+			src2 := &exactSource{dataSource: dataSource{data: in[:p.HeaderLen], chunks: []int{7, 4096}}}
+			rd2 := bufiox.NewDefaultReader(src2)
+			var p2 ttheader.DecodeParam
+			var err2 error
+			pan2 := false
+			func() {
+				defer func() {
+					if r := recover(); r != nil {
+						pan2 = true
+					}
+				}()
+				p2, err2 = ttheader.Decode(ctx, rd2)
+			}()
+			emit("stream", "7-4096+payload-has-not-arrived", p2, err2, rd2.ReadLen(), pan2, "over", src2.extra > 0)
+			rd2.Release(nil)
+		}
 	}
 }
 
@@ -779,9 +799,10 @@ func tthHostileCases(c *Ctx) []json.RawMessage {
 }
 
 func checkC06(c *Ctx) {
-	c.rule = "MC: every admissible frame of a bounded parameter domain (entry orders, ACL token, every padding residue) parses back to its parameters and has the computed info size; all 65536 flags. TRACE: parameter sets (all flags (quick: stride 97), every padding residue, info sizes 65515..65540 stepping by 1 around the 65536 limit, 64KiB-scale values, unsupported protocol ids, random maps with arbitrary bytes and the ACL key) through EncodeToBytes and Encode over a stream-backed writer (tth_enc: error iff InfoSize > 65536, layout, size field, written = header length, Parse(frame) = param) and then DecodeFromBytes / Decode over bytes- and stream-backed readers under every fragmentation with a pattern payload behind the header (tth_dec: params, HeaderLen, PayloadLen arithmetic, ReadLen, IsTTHeader/IsStreaming)."
+	c.rule = "MC: every admissible frame of a bounded parameter domain (entry orders, ACL token, every padding residue) parses back to its parameters and has the computed info size; all 65536 flags. TRACE: parameter sets (all flags (quick: stride 97), every padding residue, info sizes 65515..65540 stepping by 1 around the 65536 limit, 64KiB-scale values, unsupported protocol ids, random maps with arbitrary bytes and the ACL key) through EncodeToBytes and Encode over a stream-backed writer (tth_enc: error iff InfoSize > 65536, layout, size field, written = header length, Parse(frame) = param) and then DecodeFromBytes / Decode over bytes- and stream-backed readers under every fragmentation with a pattern payload behind the header (tth_dec: params, HeaderLen, PayloadLen arithmetic, ReadLen, IsTTHeader/IsStreaming). BIG COLLECTIONS (Go monitor; the expectation is computed in Go from the data that was encoded, because TLC's map comparison is quadratic): header sections of 255..9000 entries (int, str, both + ACL token), both decoders."
 	c.MC("MC_TTHeader.tla", "MC_TTHeader.cfg", 4)
 	c.TraceCheck(famTTHC06, append(tthEncCases(c), tthUtilCases(c)...))
+	bigHeaderMonitor(c, "big-C06")
 	// streams of 1..5 framed messages (header + message envelope + Base/BaseResp) read back from a fragmenting
 	// reader: every payload must be delimited exactly by total + 4 - header length
 	c.TraceCheck(famFraming, framingCases(c))
@@ -789,9 +810,10 @@ func checkC06(c *Ctx) {
 }
 
 func checkC10(c *Ctx) {
-	c.rule = "MC: all 65536 header-size fields x {body present, one byte short, absent}; all 65536 flags; all 256 protocol ids and info ids; transform counts 0..255 x sizes; all 65536 magic words (MC_TTHeader). TRACE: the same families replayed on the real decoders (quick: size field stride 13, flags stride 31) plus random section orders, repeated sections, interleaved padding, count 0, size fields cutting into sections, every truncation point and perturbed structural bytes of valid frames; DecodeFromBytes, Decode over a bytes reader and Decode over fragmenting stream readers must succeed exactly when Parse does, with the same maps, HeaderLen = 14 + declared, PayloadLen - total = 4 - HeaderLen, ReadLen <= min(14 + declared, len); streams of several framed messages read back to back from one reader, with and without Release in between."
+	c.rule = "MC: all 65536 header-size fields x {body present, one byte short, absent}; all 65536 flags; all 256 protocol ids and info ids; transform counts 0..255 x sizes; all 65536 magic words (MC_TTHeader). TRACE: the same families replayed on the real decoders (quick: size field stride 13, flags stride 31) plus random section orders, repeated sections, interleaved padding, count 0, size fields cutting into sections, every truncation point and perturbed structural bytes of valid frames; DecodeFromBytes, Decode over a bytes reader and Decode over fragmenting stream readers must succeed exactly when Parse does, with the same maps, HeaderLen = 14 + declared, PayloadLen - total = 4 - HeaderLen, ReadLen <= min(14 + declared, len); streams of several framed messages read back to back from one reader, with and without Release in between. BIG COLLECTIONS (Go monitor; the expectation is computed in Go from the data that was encoded, because TLC's map comparison is quadratic): well-formed header sections of 255..9000 entries, both decoders."
 	c.MC("MC_TTHeader.tla", "MC_TTHeader.cfg", 4)
 	c.TraceCheck(famTTHC10, tthHostileCases(c))
+	bigHeaderMonitor(c, "big-C10")
 	// frames read back to back from one reader, with and without Release between them: the framing arithmetic of every
 	// frame is about that frame alone
 	c.TraceCheck(famFraming, framingCases(c))
